@@ -1,5 +1,6 @@
 (* C02 — Writer conforms to the frozen .qco format (independent decoder agrees). *)
-From QCo.Lemmas Require Import Tactics SpecL.
+From QCo.Lemmas Require Import Tactics SpecL MetaL FileL ConformL.
+From QCo.Model Require Import Reader.
 From QCo.Model Require Import Base Consts Frozen DType Codec Writer Spec AssetsData.
 Open Scope N_scope.
 
@@ -27,3 +28,25 @@ Theorem C02_grammar_roundtrip : forall a rest, wf_file a -> Nlen rest mod 8 = 0 
   dec_file (sf_dt a) (enc_file a ++ rest)
   = Some (a, map (fun c => Nlen (enc_body c) / 8) (sf_chunks a), rest).
 Proof. exact dec_enc_file. Qed.
+
+(* The writer conforms to the frozen format: for every data type, delta order, GCD setting and
+   chunk list (any tables satisfying chunk_ok), the bytes the writer model emits ARE the grammar
+   serialisation of an AST ... *)
+Theorem C02_writer_is_grammar : forall d order gcds chunks bytes,
+  order <= 7 -> Forall (chunk_ok d (writer_flags order gcds)) chunks ->
+  file_bytes d (writer_flags order gcds) chunks = Ok bytes ->
+  bytes_to_bits bytes = enc_file (ast_of d (writer_flags order gcds) chunks).
+Proof. exact writer_is_grammar. Qed.
+
+(* ... and the independent decoder recovers from them the same flags (inside the AST), the same
+   chunk metadata (count, body size, moments, table up to the divisor of single-valued ranges)
+   and the same numbers, consuming the file exactly to its last bit. *)
+Theorem C02_conformance : forall d order gcds chunks bytes,
+  let f := writer_flags order gcds in
+  let a := ast_of d f chunks in
+  order <= 7 -> Forall (chunk_ok d f) chunks -> file_bytes d f chunks = Ok bytes ->
+  dec_file d (bytes_to_bits bytes) = Some (a, map (fun c => Nlen (enc_body c) / 8) (sf_chunks a), []) /\
+  file_nums a = concat (map fst chunks) /\
+  map (fun c => chunk_meta c (Nlen (enc_body c) / 8)) (sf_chunks a) =
+  map (fun m => mkMeta (m_n m) (m_body m) (m_moments m) (norm_table f (pdt f d) (m_table m))) (chunk_metas d f chunks).
+Proof. exact conformance. Qed.
